@@ -116,7 +116,7 @@ func mbObserver[T any](r *mbRec) ro.Observer[T] {
 	)
 }
 
-// after every processed entry of the interleaving: recorders whose delay has elapsed subscribe
+// after every notification a source has issued: recorders whose delay has elapsed subscribe
 func (r *mbRec) tick() {
 	r.mu.Lock()
 	var due, keep []*mbPending
@@ -470,8 +470,8 @@ func runMultiBCase(c *Case) string {
 			if blocking && !waitQuiescent(gid, done) {
 				return "res " + c.id + " harness-timeout"
 			}
+			r.tick()
 		}
-		r.tick()
 	}
 	r.finish()
 
@@ -754,7 +754,7 @@ func genMultiB(tier string, seed int64, only string) []*Case {
 						script = append(script, Tok{'E', 1, 0})
 					}
 					order := make([]int, len(script))
-					// now and then an entry that issues nothing (only moves the recorders' clocks)
+					// now and then an entry that issues nothing
 					if r.Intn(4) == 0 {
 						order = append(order, 0)
 						order[r.Intn(len(order))] = 1
